@@ -435,3 +435,183 @@ Proof.
   - cbn in H. destruct H as (_ & (V1 & V2 & V3) & _ & Hok). apply (IH (cur + l)); [|exact Hok].
     unfold c_cdnMinChunk in *. rewrite Z.add_mod, Hc, V2 by lia. reflexivity.
 Qed.
+
+(* ---------- honest run: genuine data is accepted unchanged ---------- *)
+
+Lemma bytes_eqb_refl : forall a, bytes_eqb a a = true.
+Proof. induction a as [|x a IH]; cbn; [reflexivity|]. rewrite Z.eqb_refl, IH. reflexivity. Qed.
+
+Lemma firstn_firstn_min {B} : forall a b (l : list B), firstn a (firstn b l) = firstn (Nat.min a b) l.
+Proof.
+  induction a as [|a IH]; intros b l; [reflexivity|].
+  destruct b; [destruct l; reflexivity|]. destruct l; [reflexivity|]. cbn. f_equal. apply IH.
+Qed.
+Lemma skipn_firstn_comm' {B} : forall a b (l : list B), skipn a (firstn b l) = firstn (b - a) (skipn a l).
+Proof.
+  induction a as [|a IH]; intros b l; [cbn; rewrite Nat.sub_0_r; reflexivity|].
+  destruct b; [destruct l; reflexivity|]. destruct l; [cbn; rewrite firstn_nil; reflexivity|]. cbn. apply IH.
+Qed.
+Lemma skipn_skipn' {B} : forall a b (l : list B), skipn a (skipn b l) = skipn (b + a) l.
+Proof.
+  intros a b; revert a. induction b as [|b IH]; intros a l; [reflexivity|].
+  destruct l; cbn; [destruct a; reflexivity|apply IH].
+Qed.
+
+(* a slice of a slice *)
+Lemma slice_slice l a b c d :
+  0 <= a -> 0 <= c -> c <= d -> a + d <= b ->
+  slice (slice l a b) c d = slice l (a + c) (a + d).
+Proof.
+  intros Ha Hc Hcd Hd. unfold slice.
+  rewrite skipn_firstn_comm', firstn_firstn_min, skipn_skipn'. f_equal; [lia|]. f_equal. lia.
+Qed.
+
+Lemma skipn_slice l a b c : 0 <= a -> 0 <= c -> a + c <= b -> skipn (Z.to_nat c) (slice l a b) = slice l (a + c) b.
+Proof.
+  intros Ha Hc Hb. unfold slice. rewrite skipn_firstn_comm', skipn_skipn'. f_equal; [lia|]. f_equal. lia.
+Qed.
+
+Lemma patch_slice_id l from to : 0 <= from -> from <= to -> to <= zlen l -> patch l from (slice l from to) = l.
+Proof.
+  intros H1 H2 H3. unfold patch, slice, zlen in *.
+  rewrite firstn_length, skipn_length.
+  replace (Z.to_nat from + Nat.min (Z.to_nat (to - from)) (length l - Z.to_nat from))%nat with (Z.to_nat to) by lia.
+  rewrite <- (firstn_skipn (Z.to_nat from) l) at 4.
+  f_equal.
+  rewrite <- (firstn_skipn (Z.to_nat (to - from)) (skipn (Z.to_nat from) l)) at 2.
+  f_equal. rewrite skipn_skipn'. f_equal. lia.
+Qed.
+
+Section HonestRun.
+Variable sha : list Z -> list Z.
+Variable hash_for : Z -> option hwin.
+Variable fetch : hwin -> list Z.
+Variable file : list Z.
+Notation size := (zlen file).
+(* the client's hash list covers the file with windows that contain the offset they are looked up for
+   and hash the file's bytes; whole-window requests are answered with the file's bytes *)
+Hypothesis hashes_cover : forall o, 0 <= o < size ->
+  exists w, hash_for o = Some w /\ 0 <= w_off w <= o /\ o < w_off w + w_limit w /\ w_hash w = sha (gen file w).
+Hypothesis fetch_honest : forall w, fetch w = gen file w.
+
+Lemma vc_loop_honest : forall fuel cs ce short current,
+  0 <= cs -> cs <= current -> ce <= size -> (short = true -> ce = size) ->
+  (Z.to_nat (ce - current) <= fuel)%nat ->
+  vc_loop sha hash_for fetch fuel cs ce short current (slice file cs ce) = Some (slice file cs ce).
+Proof.
+  induction fuel as [|f IH]; intros cs ce short current Hcs Hcur Hce Hshort Hf.
+  - cbn. destruct (Z.ltb_spec current ce); [lia|reflexivity].
+  - cbn [Cdn.vc_loop]. destruct (Z.ltb_spec current ce) as [Hlt|]; [|reflexivity].
+    destruct (hashes_cover current ltac:(lia)) as (w & Ehf & Hw1 & Hw2 & Hw3). rewrite Ehf.
+    destruct (Z.leb_spec (w_limit w) 0); [lia|].
+    destruct (Z.leb_spec (w_off w + w_limit w) current); [lia|].
+    set (we := w_off w + w_limit w) in *. set (ws := w_off w) in *.
+    set (data := slice file cs ce).
+    assert (zlen data = ce - cs) as Hdl by (unfold data; rewrite slice_len; lia).
+    destruct ((ws >=? cs) && (we <=? ce)) eqn:C1.
+    + apply andb_true_iff in C1. destruct C1 as [C1a C1b]. apply Z.geb_le in C1a. apply Z.leb_le in C1b.
+      assert (slice data (ws - cs) (we - cs) = gen file w) as ->.
+      { unfold data. rewrite slice_slice by lia. unfold gen. fold ws we. rewrite Z.min_l by lia. f_equal; lia. }
+      rewrite Hw3, bytes_eqb_refl. apply IH; auto; lia.
+    + destruct (short && (ws >=? cs) && (ws <? ce) && (we >? ce)) eqn:C2.
+      * apply andb_true_iff in C2. destruct C2 as [C2 C2d]. apply andb_true_iff in C2. destruct C2 as [C2 C2c].
+        apply andb_true_iff in C2. destruct C2 as [C2a C2b]. apply Z.geb_le in C2b. apply Z.ltb_lt in C2c. apply Z.gtb_lt in C2d.
+        specialize (Hshort C2a).
+        assert (skipn (Z.to_nat (ws - cs)) data = gen file w) as ->.
+        { unfold data. rewrite skipn_slice by lia. unfold gen. fold ws we. rewrite Z.min_r by lia. f_equal; lia. }
+        rewrite Hw3, bytes_eqb_refl. reflexivity.
+      * unfold load_window. rewrite fetch_honest.
+        assert (zlen (gen file w) = Z.min we size - ws) as Hgl by (unfold gen; rewrite slice_len; lia).
+        destruct ((zlen (gen file w) =? 0) || (zlen (gen file w) >? w_limit w)) eqn:Ew.
+        { exfalso. apply orb_true_iff in Ew. destruct Ew as [Ew|Ew]; [apply Z.eqb_eq in Ew|apply Z.gtb_lt in Ew]; lia. }
+        rewrite Hw3, bytes_eqb_refl. rewrite Hgl.
+        set (os := Z.max cs ws). set (wde := ws + (Z.min we size - ws)). set (oe := Z.min ce wde).
+        destruct (Z.leb_spec oe os); [unfold oe, wde, os in *; lia|].
+        assert ((wde <? we) && (ce >? wde) = false) as ->.
+        { apply andb_false_iff. destruct (Z.ltb_spec wde we); [right|left; reflexivity].
+          destruct (Z.gtb_spec ce wde); [unfold wde in *; lia|reflexivity]. }
+        assert (short && (wde >? ce) = false) as ->.
+        { destruct short; [|reflexivity]. specialize (Hshort eq_refl). cbn.
+          destruct (Z.gtb_spec wde ce); [unfold wde in *; lia|reflexivity]. }
+        assert (patch data (os - cs) (slice (gen file w) (os - ws) (oe - ws)) = data) as ->.
+        { unfold gen. fold ws we. rewrite slice_slice by (unfold os, oe, wde in *; lia).
+          replace (ws + (os - ws)) with os by lia. replace (ws + (oe - ws)) with oe by lia.
+          replace (slice file os oe) with (slice data (os - cs) (oe - cs)).
+          - apply patch_slice_id; unfold os, oe, wde in *; lia.
+          - unfold data. rewrite slice_slice by (unfold os, oe, wde in *; lia). f_equal; lia. }
+        apply IH; auto; lia.
+Qed.
+
+(* an honest answer -- the file's bytes for [offset, offset+limit), cut at the end of the file -- passes
+   verifyChunk unchanged *)
+Theorem verify_chunk_honest offset lim :
+  0 <= offset < size -> 0 < lim ->
+  let data := slice file offset (Z.min (offset + lim) size) in
+  verify_chunk sha hash_for fetch offset lim data = Some data.
+Proof.
+  intros Ho Hl. cbv zeta.
+  remember (slice file offset (Z.min (offset + lim) size)) as d eqn:Ed0.
+  assert (zlen d = Z.min (offset + lim) size - offset) as Hdl by (subst d; rewrite slice_len; lia).
+  unfold verify_chunk. destruct d as [|b0 d0].
+  { exfalso. unfold zlen in *. cbn in Hdl. lia. }
+  rewrite Hdl.
+  replace (offset + (Z.min (offset + lim) size - offset)) with (Z.min (offset + lim) size) by lia.
+  rewrite Ed0.
+  apply vc_loop_honest.
+  - lia.
+  - lia.
+  - lia.
+  - intros Hs. apply andb_true_iff in Hs. destruct Hs as [_ Hs]. apply Z.ltb_lt in Hs. lia.
+  - rewrite <- Ed0. unfold zlen in *. lia.
+Qed.
+End HonestRun.
+
+(* CTR is an involution: what the CDN encrypted with the documented counters decrypts to itself *)
+Lemma xor_bytes_involutive : forall a k, (length a <= length k)%nat -> xor_bytes (xor_bytes a k) k = a.
+Proof.
+  induction a as [|x a IH]; intros [|y k] H; cbn in *; try lia; try reflexivity.
+  f_equal; [rewrite Z.lxor_assoc, Z.lxor_nilpotent, Z.lxor_0_r; reflexivity|apply IH; lia].
+Qed.
+Lemma keystream_length E n c k : (forall z, length (E z) = 16%nat) -> length (keystream E n c k) = (16 * n)%nat.
+Proof.
+  intros HE. revert k. induction n as [|n IH]; intros k; [reflexivity|].
+  cbn [keystream]. rewrite app_length, HE, IH. lia.
+Qed.
+Lemma xor_bytes_length : forall a k, (length a <= length k)%nat -> length (xor_bytes a k) = length a.
+Proof. induction a as [|x a IH]; intros [|y k] H; cbn in *; try lia; try reflexivity. f_equal. apply IH; lia. Qed.
+Theorem decrypt_involutive E ivz offset src :
+  (forall z, length (E z) = 16%nat) -> decrypt E ivz offset (decrypt E ivz offset src) = src.
+Proof.
+  intros HE. unfold decrypt.
+  assert (length src <= length (keystream E (S (length src / 16)) (iv_with_offset ivz offset) 0))%nat as Hl.
+  { rewrite keystream_length by exact HE. pose proof (Nat.div_mod (length src) 16 ltac:(lia)).
+    pose proof (Nat.mod_upper_bound (length src) 16 ltac:(lia)). lia. }
+  rewrite xor_bytes_length by exact Hl. apply xor_bytes_involutive; exact Hl.
+Qed.
+
+(* assembling a chunk from the answers to the plan's steps (each the file's bytes for its range) *)
+Lemma slice_app l a b c : 0 <= a -> a <= b -> b <= c -> slice l a b ++ slice l b c = slice l a c.
+Proof.
+  intros Ha Hb Hc. unfold slice.
+  replace (Z.to_nat (c - a)) with (Z.to_nat (b - a) + Z.to_nat (c - b))%nat by lia.
+  replace (Z.to_nat b) with (Z.to_nat a + Z.to_nat (b - a))%nat by lia.
+  rewrite <- skipn_skipn'. generalize (skipn (Z.to_nat a) l) as m, (Z.to_nat (b - a)) as x, (Z.to_nat (c - b)) as y.
+  intros m x; revert m. induction x as [|x IH]; intros m y; [reflexivity|].
+  destruct m; cbn; [rewrite firstn_nil; reflexivity|]. f_equal. apply IH.
+Qed.
+
+Lemma plan_assembles file : forall steps cur,
+  0 <= cur -> steps_ok cur steps ->
+  concat (map (fun s => slice file (fst s) (fst s + snd s)) steps) = slice file cur (cur + steps_total steps).
+Proof.
+  induction steps as [|[o l] t IH]; intros cur Hc H.
+  - cbn. unfold slice. replace (Z.to_nat (cur + 0 - cur)) with 0%nat by lia. reflexivity.
+  - cbn in H. destruct H as (-> & (V1 & _) & _ & Hok). unfold c_cdnMinChunk in V1.
+    cbn [map concat fst snd steps_total fold_right]. fold (steps_total t).
+    rewrite (IH (cur + l)) by (auto; lia).
+    assert (0 <= steps_total t).
+    { clear -Hok. revert Hok. generalize (cur + l). induction t as [|[o2 l2] t2 IH2]; intros c0 H; [cbn; lia|].
+      cbn in H. destruct H as (_ & (W1 & _) & _ & H2). unfold c_cdnMinChunk in W1. specialize (IH2 _ H2).
+      cbn [steps_total fold_right snd]. fold (steps_total t2). lia. }
+    rewrite slice_app by lia. f_equal. lia.
+Qed.
